@@ -92,7 +92,7 @@ def check(run, views, tier):
         b, paths = status_gate(run, U, "ipputil::do_print_job")
         if b is None:
             continue
-        run.floor("R-PRINTGATE", len(paths), 8, "paths through do_print_job")
+        run.floor("R-PRINTGATE", len(paths), 4, "paths through do_print_job")
         n_print = 0
         for p in paths:
             calls = list(all_calls(p))
